@@ -1,11 +1,17 @@
 (* C26 — ffi.init_once runs the initializer once under any interleaving.
-   Statements only; proofs are in C26/Proofs.v.  `modelled p` : p is the step program regenerated
-   from api.py FFI.init_once (C26/Gen.v py_prog) or the hand model of ffi_obj.c ffi_init_once
-   (C26/Model.v c_prog).  Threads are `nat` (any number), `reach` is closed under steps of any
-   thread in any order (all schedules), f may return any value or raise at every call. *)
+   Statements only; proofs are in C26/Proofs.v, Proofs2.v (termination), Proofs3.v (results, the two
+   implementations).  `modelled p` : p is the step program regenerated from api.py FFI.init_once
+   (C26/Gen.v py_prog) or the step program of ffi_obj.c ffi_init_once (C26/Model.v c_prog, which
+   the regenerated C26/Gen.v c_prog_gen must equal).  Threads are `nat` (any number), `reach` is
+   closed under steps of any thread in any order (all schedules), f may return any value or raise
+   at every call.  Hypothesis of the whole file, not expressible inside the model: one dict
+   operation / one lock operation of the implementation is one atomic step (the GIL for the dict
+   operations of built-in or harness-hashed tags; PyThread locks are atomic by themselves).
+   The theorems named C26_impl_* quantify over the two implementations themselves (C26/Impl.v):
+   their step program AND the state their constructor creates both come from C26/Gen.v. *)
 From Coq Require Import Arith List Bool ZArith.
 Import ListNotations.
-From Cffi Require Import C26.Model C26.Gen C26.Proofs.
+From Cffi Require Import C26.Model C26.Gen C26.Proofs C26.Proofs2 C26.Impl C26.Proofs3.
 
 Theorem C26_safety : forall p s, modelled p -> reach p s ->
   (forall t1 t2, in_f s t1 -> in_f s t2 -> t1 = t2) /\          (* at most one f runs at a time *)
@@ -75,15 +81,123 @@ Theorem C26_no_deadlock : forall p s t, modelled p -> reach p s -> unfinished s 
 Proof. exact no_deadlock. Qed.
 Print Assumptions C26_no_deadlock.
 
-(* ... and no livelock: each own step strictly decreases the call's rank, so a call makes at
-   most rank (At 0) = 2 * length p + 2 steps; other threads' steps do not touch it.
-   Termination of every call then follows under weak fairness of the scheduler and termination
-   of f — those two are the runtime hypotheses (not formalised). *)
-Theorem C26_bounded_steps : forall p s t s', modelled p -> step p s t s' ->
+(* one step: the rank of the stepping call strictly decreases and no other call is touched
+   (a ONE-STEP statement; the bound on whole runs is C26_runs_bounded below) *)
+Theorem C26_own_step_decreases_rank : forall p s t s', modelled p -> step p s t s' ->
   rank p (pc (th s' t)) < rank p (pc (th s t)) /\
   forall t0, t0 <> t -> th s' t0 = th s t0.
 Proof. exact bounded_steps. Qed.
-Print Assumptions C26_bounded_steps.
+Print Assumptions C26_own_step_decreases_rank.
+
+(* ---- termination WITHOUT a fairness hypothesis.  n callers (threads 0..n-1; reachN/stepsN:
+   only they step).  Every step of any of them strictly decreases the sum of their ranks ... *)
+Theorem C26_total_rank_decreases : forall p n s t s', modelled p -> t < n -> step p s t s' ->
+  total_rank p n s' < total_rank p n s.
+Proof. exact total_rank_decreases. Qed.
+Print Assumptions C26_total_rank_decreases.
+
+(* ... so every run from the initial state, under every schedule, has at most n * (2*|p| + 2) steps
+   (f's return/raise is one of these steps: the only thing that can keep a run from ending is an f
+   that does not come back) ... *)
+Theorem C26_runs_bounded : forall p n k s, modelled p -> stepsN p n init k s -> k <= n * (2 * length p + 2).
+Proof. exact runs_bounded. Qed.
+Print Assumptions C26_runs_bounded.
+
+(* ... and when none of the n callers can step any more, all n calls have finished. *)
+Theorem C26_quiescent_all_finished : forall p n s, modelled p -> reachN p n s ->
+  (forall t, t < n -> ~ enabled p s t) -> forall t, t < n -> ~ unfinished s t.
+Proof. exact quiescent_all_finished. Qed.
+Print Assumptions C26_quiescent_all_finished.
+
+(* together: every maximal run is finite and ends with every call having returned the cached result
+   or re-raised its own f's exception *)
+Theorem C26_maximal_run_all_finished : forall p n k s, modelled p -> stepsN p n init k s ->
+  (forall t, t < n -> ~ enabled p s t) ->
+  k <= n * (2 * length p + 2) /\
+  forall t, t < n ->
+    (exists r, returned s t r /\ cache s = Done r) \/ (pc (th s t) = Raised FExn /\ own_f_raised s t).
+Proof. exact maximal_run_all_finished. Qed.
+Print Assumptions C26_maximal_run_all_finished.
+
+(* bounding the callers loses nothing *)
+Theorem C26_reach_is_reachN : forall p s, reach p s -> exists n, reachN p n s.
+Proof. exact reach_reachN. Qed.
+Print Assumptions C26_reach_is_reachN.
+
+(* ---- whose result.  For EVERY step program p (not only the modelled ones) and every predicate R:
+   if every value f returns satisfies R, so does the cached value and every value a call returns. *)
+Theorem C26_result_is_f_result : forall (R : Z -> Prop) p s t r,
+  reachR R p s -> (cache s = Done r \/ returned s t r) -> R r.
+Proof. exact result_is_f_result. Qed.
+Print Assumptions C26_result_is_f_result.
+
+(* with the history h of the values returned by completed runs of f (a ghost outside the state):
+   a cached value / a returned value is THE value of THE one completion *)
+Theorem C26_result_is_the_completion : forall p s h t r, modelled p -> reachH p s h ->
+  (cache s = Done r \/ returned s t r) -> h = [r].
+Proof. exact result_is_the_completion. Qed.
+Print Assumptions C26_result_is_the_completion.
+
+Theorem C26_history_counts_completions : forall p s h, modelled p -> reachH p s h -> length h = ndone s.
+Proof. exact reachH_len. Qed.
+Print Assumptions C26_history_counts_completions.
+
+(* reachR / reachH are not restrictions of reach *)
+Theorem C26_reach_has_history : forall p s, reach p s -> exists h, reachH p s h.
+Proof. exact reach_reachH. Qed.
+Print Assumptions C26_reach_has_history.
+Theorem C26_reach_is_reachR_True : forall p s, reach p s -> reachR (fun _ => True) p s.
+Proof. exact reach_reachR_True. Qed.
+Print Assumptions C26_reach_is_reachR_True.
+
+(* ---- the two implementations, from the state their constructor creates (C26/Impl.v).
+   impl_init i = init_of (regenerated facts): "no entry for any tag, new locks unlocked". *)
+Theorem C26_impl_init_is_empty : forall i, impl_init i = init.
+Proof. exact impl_init_is_init. Qed.
+Print Assumptions C26_impl_init_is_empty.
+
+Theorem C26_impl_c_prog_regenerated : c_prog_gen = c_prog /\ gen_c_no_return_while_locked = true.
+Proof. exact c_prog_gen_ok. Qed.
+Print Assumptions C26_impl_c_prog_regenerated.
+
+Theorem C26_impl_safety : forall i s, ireach i s ->
+  (forall t1 t2, in_f s t1 -> in_f s t2 -> t1 = t2) /\
+  ndone s <= 1 /\
+  (forall t r, returned s t r -> cache s = Done r) /\
+  (forall r, cache s = Done r -> forall t, ~ in_f s t) /\
+  (forall t e, pc (th s t) = Raised e -> e = FExn /\ own_f_raised s t) /\
+  (forall t r, returned s t r -> fraised (th s t) = false) /\
+  (forall t, pc (th s t) <> Stuck).
+Proof. exact impl_safety. Qed.
+Print Assumptions C26_impl_safety.
+
+(* every FFI object, every tag *)
+Theorem C26_impl_safety_every_tag : forall i S tag, imreach i S ->
+  (forall t1 t2, in_f (S tag) t1 -> in_f (S tag) t2 -> t1 = t2) /\
+  ndone (S tag) <= 1 /\
+  (forall t r, returned (S tag) t r -> cache (S tag) = Done r) /\
+  (forall r, cache (S tag) = Done r -> forall t, ~ in_f (S tag) t) /\
+  (forall t e, pc (th (S tag) t) = Raised e -> e = FExn /\ own_f_raised (S tag) t) /\
+  (forall t r, returned (S tag) t r -> fraised (th (S tag) t) = false) /\
+  (forall t, pc (th (S tag) t) <> Stuck).
+Proof. exact impl_safety_every_tag. Qed.
+Print Assumptions C26_impl_safety_every_tag.
+
+Theorem C26_impl_maximal_run_all_finished : forall i n k s,
+  stepsN (prog_of i) n (impl_init i) k s -> (forall t, t < n -> ~ enabled (prog_of i) s t) ->
+  k <= n * (2 * length (prog_of i) + 2) /\
+  forall t, t < n ->
+    (exists r, returned s t r /\ cache s = Done r) \/ (pc (th s t) = Raised FExn /\ own_f_raised s t).
+Proof. exact impl_maximal_run_all_finished. Qed.
+Print Assumptions C26_impl_maximal_run_all_finished.
+
+(* why the base case matters: from a cache that was NOT created empty (init_of false _, e.g. a
+   module __dict__ instead of {}), one step program step returns a value no f produced *)
+Example C26_example_nonempty_cache_breaks :
+  exists s1 s2, step_fn py_prog (init_of false true) 0 FRaise = Some s1 /\
+                vstep py_prog (init_of false true) 0 FRaise = Some s2 /\
+                returned s2 0 0%Z /\ ndone s2 = 0 /\ nstart (th s2 0) = 0.
+Proof. eexists; eexists; split; [reflexivity|]. split; [vm_compute; reflexivity|]. repeat split. Qed.
 
 (* the executable runner used by the correspondence harness only visits reachable states *)
 Theorem C26_runner_sound : forall p sch s tr, run_steps p init sch [] = Some (s, tr) -> reach p s.
